@@ -210,8 +210,12 @@ def gen_case(rnd, profile="mixed", size="small"):
         return gen_minfee(rnd)
     if profile == "repayboundary":
         return gen_repay_boundary(rnd)
+    if profile == "reconfig":
+        return gen_reconfig(rnd)
     if profile == "boundary":
         return gen_boundary(rnd)
+    if profile == "dust":
+        return gen_boundary(rnd, dust=True)
     if profile == "compete":
         return gen_compete(rnd)
     wide = profile == "wide"           # one merged feed carrying four pairs; the strategy listens to one or two of them
@@ -236,6 +240,11 @@ def gen_case(rnd, profile="mixed", size="small"):
         sym_prec["XRP"] = rnd.choice([0, 1, 2])
         sym_prec["ADA"] = rnd.choice([0, 2])
         sym_prec["DOT"] = rnd.choice([1, 3])
+        if sym_prec["ADA"] == 0:
+            # two instruments whose tickers differ only by case (LTC and ltc): distinct symbols, distinct pairs
+            syms[syms.index("DOT")] = "ltc"
+            pairs[pairs.index(["DOT", "USD"])] = ["ltc", "USD"]
+            sym_prec["ltc"] = sym_prec.pop("DOT")
     if profile == "noprec" and rnd.random() < 0.5:
         sym_prec.pop(rnd.choice(list(sym_prec)))
     pair_info = {}
@@ -334,7 +343,7 @@ def gen_case(rnd, profile="mixed", size="small"):
     for pi, (b, q) in enumerate(pairs):
         qp = prec_of(pi)[1]
         base = {("BTC", "USD"): 100, ("ETH", "USD"): 10, ("ETH", "BTC"): F(1, 10), ("LTC", "USD"): 50,
-                ("XRP", "USD"): 2, ("ADA", "USD"): 1, ("DOT", "USD"): 20}[(b, q)]
+                ("XRP", "USD"): 2, ("ADA", "USD"): 1, ("DOT", "USD"): 20, ("ltc", "USD"): 20}[(b, q)]
         if qp == 0:
             base = max(1, int(base)) * 10
         ref[pi] = F(base)
@@ -457,18 +466,144 @@ def gen_case(rnd, profile="mixed", size="small"):
                            if (profile == "multipair" and len(pairs) > 1) else [])}
 
 
-def gen_boundary(rnd):
+def gen_reconfig(rnd):
+    """Precision changed while the backtest runs (Exchange.set_symbol_precision / set_pair_info called from a strategy
+    handler): one or two changes, raising or lowering the base or the quote precision of the traded pair, before or
+    after the pair has traded.  Requests sent after a change use the new grid (new decimals when it got finer);
+    requests sent before a lowering stay on the coarser grid, so that no open order is left with an amount the new
+    grid cannot express."""
+    by_sym = rnd.random() < 0.5                     # per-symbol precisions, or a PairInfo for the pair
+    two_pairs = rnd.random() < 0.3
+    moves = {"b": [(0, 2), (2, 8), (2, 4), (4, 2), (2, 0), (8, 2), (0, 8)], "q": [(2, 4), (2, 0), (4, 2), (0, 2), (2, 6)]}
+    bp0 = qp0 = None
+    phases = []                                      # precision (bp, qp) per phase
+    which = rnd.choice(["b", "b", "q"])
+    frm, to = rnd.choice(moves[which])
+    bp, qp = (frm, rnd.choice([2, 2, 0, 4])) if which == "b" else (rnd.choice([2, 0, 4, 8]), frm)
+    phases.append((bp, qp))
+    changes = [(which, to)]
+    phases.append((to, qp) if which == "b" else (bp, to))
+    if rnd.random() < 0.35:
+        w2 = rnd.choice(["b", "q"])
+        cur = phases[-1]
+        t2 = rnd.choice([x for x in (0, 2, 4, 8) if x != (cur[0] if w2 == "b" else cur[1])])
+        changes.append((w2, t2))
+        phases.append((t2, cur[1]) if w2 == "b" else (cur[0], t2))
+    nb = rnd.randint(6, 16)
+    cut = sorted(rnd.sample(range(0, nb - 1), len(changes)))
+    ample = rnd.random() < 0.5
+    fee = rnd.choice([None, ["0.25", "0"], ["1", "0.01"], ["0.1", "0.5"]])
+    liq = None if ample or rnd.random() < 0.5 else [rnd.choice(["25", "50", "10"]), rnd.choice(["0", "0", "10"])]
+    syms = ["BTC", "USD"] + (["ETH"] if two_pairs else [])
+    pairs = [["BTC", "USD"]] + ([["ETH", "USD"]] if two_pairs else [])
+    sym_prec = {"BTC": phases[0][0], "USD": phases[0][1]}
+    pair_info = {}
+    if not by_sym:
+        pair_info["0"] = [phases[0][0], phases[0][1]]
+        sym_prec = {"BTC": 8, "USD": rnd.choice([2, 8])}
+    if two_pairs:
+        sym_prec["ETH"] = rnd.choice([1, 3])
+
+    def phase_of(i):
+        return sum(1 for c in cut if c <= i)
+
+    def grid_of(i, j):
+        """coarsest precision (component j) from the phase of bar i on: what requests sent at bar i may use"""
+        return min(ph[j] for ph in phases[phase_of(i):])
+    px = F(rnd.choice([100, 250, 40]))
+    bars = []
+    for k in range(nb):
+        gq = grid_of(k, 1)
+        tick = F(1, 10 ** gq)
+        step = max(tick, px / 50)
+        pts = [max(tick, F(int((px + step * rnd.randint(-3, 3)) / tick)) * tick) for _ in range(4)]
+        o, c = pts[0], pts[1]
+        vol = rnd.choice(["10", "100", "37.5", "1000", "3", "12.345"])
+        bars.append([0, 60 * (k + 1), dec(o, gq), dec(max(pts), gq), dec(min(pts), gq), dec(c, gq), vol])
+        if two_pairs and rnd.random() < 0.6:
+            bars.append([1, 60 * (k + 1), "10.00", "10.50", "9.50", "10.00", "100"])
+        px = c
+    script = {}
+    n_orders = 0
+    chg = 0
+    for i, b in enumerate(bars):
+        if b[0] != 0:
+            continue
+        k = b[1] // 60 - 1
+        acts = []
+        while chg < len(cut) and cut[chg] == k:
+            w, to = changes[chg]
+            ph = phases[chg + 1]
+            if by_sym:
+                acts.append(["reconfig", "sym", "BTC" if w == "b" else "USD", to])
+            else:
+                acts.append(["reconfig", "pair", 0, [ph[0], ph[1]]])
+            chg += 1
+        gb, gq = grid_of(k, 0), grid_of(k, 1)
+        cur_b = phases[phase_of(k)][0]
+        tick = F(1, 10 ** gq)
+        last = F(Decimal(b[5]))
+        for _ in range(rnd.choice([0, 1, 1, 2, 3])):
+            r = rnd.random()
+            if r < 0.8:
+                kind = rnd.choice(["market", "market", "limit", "stop", "stoplimit", "limit"])
+                op = rnd.choice(["buy", "sell"])
+                # amounts that need every decimal of the grid they may use
+                amt = F(rnd.randint(1, 400 * 10 ** min(gb, 2)), 10 ** min(gb, 2)) + (F(rnd.randint(1, 10 ** gb - 1), 10 ** gb) if gb > 2 else 0)
+                if rnd.random() < 0.06:
+                    amt = amt + F(1, 10 ** (cur_b + 1))             # finer than the precision in force: to be rejected
+                    amount = dec(amt, cur_b + 1)
+                else:
+                    amount = dec(amt, gb)
+                off = rnd.randint(-3, 3) * max(tick, last / 50)
+                pr = dec(max(tick, F(int((last + off) / tick)) * tick), gq)
+                pr2 = dec(max(tick, F(int((last + rnd.randint(-3, 3) * max(tick, last / 50)) / tick)) * tick), gq)
+                acts.append(["create", kind, op, 0, amount, pr if kind in ("limit", "stoplimit") else None,
+                             pr2 if kind in ("stop", "stoplimit") else None, False, False])
+                n_orders += 1
+            elif r < 0.9:
+                acts.append(["cancel", rnd.randrange(max(1, n_orders))])
+            else:
+                acts.append(["list", rnd.choice([None, 0])])
+        if acts:
+            script[str(i)] = acts
+    if ample:
+        initial = {"BTC": dec(10 ** 7, max(p[0] for p in phases)), "USD": dec(10 ** 10, max(p[1] for p in phases))}
+    else:
+        initial = {"BTC": dec(rnd.choice([0, 10, 500, 1000]), phases[0][0]),
+                   "USD": dec(rnd.choice([1000, 50000, 100000, 555.55]), phases[0][1])}
+    if two_pairs:
+        initial["ETH"] = "5.0"
+    return {"syms": syms, "pairs": pairs, "sym_prec": sym_prec, "pair_info": pair_info, "default_pair": None,
+            "fee": fee, "liq": liq, "lend": None, "initial": initial, "bars": bars, "script": script,
+            "subscribe_first": rnd.random() < 0.3, "profile": "reconfig", "ample": ample}
+
+
+def gen_boundary(rnd, dust=False):
     """One request whose reservation is known in closed form, with exactly that much available, or one precision
-    unit less (C06's acceptance boundary)."""
+    unit less (C06's acceptance boundary).
+    dust=True: a market buy on a quote currency with 13 or 18 decimals, reserved to the last unit, whose fill costs a few
+    units of the last place more than the account holds (the fill must be refused, whatever the size of the shortfall)."""
     bp = rnd.choice([0, 2, 4, 8])
-    qp = rnd.choice([0, 1, 2, 4])
+    qp = rnd.choice([0, 1, 2, 4, 2, 18, 13])            # 18: a quote currency counted in wei
     fee = rnd.choice([None, ["0.25", "0"], ["1", "0.01"], ["0.1", "5"], ["2.5", "0"], ["33.3333", "0"]])
     kind = rnd.choice(["limit", "stop", "stoplimit", "market"])
     op = rnd.choice(["buy", "sell"])
+    if dust:
+        qp = 18 if qp % 2 == 0 else 13
+        kind, op = "market", "buy"
     tick = F(1, 10 ** qp)
     price = F(rnd.randint(1, 50000), 10 ** qp) if qp else F(rnd.randint(1, 500))
     amount = F(rnd.randint(1, 50000), 10 ** bp) if bp else F(rnd.randint(1, 50))
     close = F(rnd.randint(1, 50000), 10 ** qp) if qp else F(rnd.randint(1, 500))
+    if dust:
+        amount = F(rnd.randint(1, 200), 10 ** min(bp, 2))
+        close = F(rnd.randint(1, 50000), 10 ** rnd.choice([2, 6, qp]))
+    cp = qp
+    if kind == "market" and close.numerator % 2:
+        # the feed quotes closes with more decimals than the pair's quote precision; the estimate uses the close as it is
+        cp = qp + 3
+        close = close + F((close.numerator * 7919) % 1000, 10 ** cp)
     est = price if kind != "market" else close
 
     def rhe(x):
@@ -494,7 +629,7 @@ def gen_boundary(rnd):
         need["BTC"] = amount
         if feev > cost:
             need["USD"] = feev - cost
-    short = rnd.random() < 0.5
+    short = rnd.random() < 0.5 and not dust
     initial = {"BTC": dec(need.get("BTC", 0), bp), "USD": dec(need.get("USD", 0), qp)}
     if short and need:
         s = rnd.choice(sorted(need))
@@ -502,13 +637,18 @@ def gen_boundary(rnd):
         initial[s] = dec(need[s] - unit, bp if s == "BTC" else qp)
     elif not short and rnd.random() < 0.3:
         initial["USD"] = dec(need.get("USD", 0) + rnd.randint(0, 3) * tick, qp)
-    bars = [[0, 60, dec(close, qp), dec(close, qp), dec(close, qp), dec(close, qp), "10"],
-            [0, 120, dec(close, qp), dec(close + tick, qp), dec(close, qp), dec(close, qp), "10"]]
+    bars = [[0, 60, dec(close, cp), dec(close, cp), dec(close, cp), dec(close, cp), "10"],
+            [0, 120, dec(close, cp), dec(close + tick, cp), dec(close, cp), dec(close, cp), "10"]]
+    if kind == "market" and qp >= 13:
+        # the next bar opens one (tiny) tick higher: a buy that was reserved to the last unit now costs a hair more than the
+        # account holds
+        bars[1][2] = dec(close + tick, cp)
     limit = dec(price, qp) if kind in ("limit", "stoplimit") else None
     stop = dec(price, qp) if kind in ("stop", "stoplimit") else None
     script = {"0": [["create", kind, op, 0, dec(amount, bp), limit, stop, False, False]]}
     return {"syms": ["BTC", "USD"], "pairs": [["BTC", "USD"]], "sym_prec": {"BTC": bp, "USD": qp}, "pair_info": {},
-            "default_pair": None, "fee": fee, "liq": rnd.choice([None, ["25", "0"]]), "lend": None, "initial": initial,
+            "default_pair": None, "fee": fee, "liq": rnd.choice([None, ["25", "0"]]) if not dust else None, "lend": None,
+            "initial": initial,
             "bars": bars, "script": script, "subscribe_first": False, "profile": "boundary", "ample": False,
             "boundary_short": short}
 
